@@ -36,12 +36,13 @@ BS == 92    \* backslash
 NL == 10
 SP == 32
 TAB == 9
+CR == 13
 RSQB == 93  \* ]  (used to neutralise a closer)
 
 VERBATIM == <<118, 101, 114, 98, 97, 116, 105, 109>>
 ENDW == <<101, 110, 100>>
 
-IsWs(c) == c \in {SP, NL, TAB}
+IsWs(c) == c \in {SP, NL, TAB, CR}     \* what Python's str.strip() removes, as far as generated
 Closer(o) == IF o = PC THEN PC ELSE IF o = LB THEN RB ELSE HS   \* second-last char of the closing delimiter
 Openers == {PC, LB, HS}
 TypeOf(o) == IF o = PC THEN "BLOCK" ELSE IF o = LB THEN "VAR" ELSE "COMMENT"
